@@ -644,10 +644,12 @@ func (m *Mutex) private(s *Sched) bool {
 	return true
 }
 
-// fresh resets the scheduler-side state of a mutex that was last used in an earlier execution.
+// fresh resets the bookkeeping of the thread-private reduction of a mutex that was last used in an earlier
+// execution (thread ids mean nothing across executions). The lock state itself persists: a session makes every API
+// call in an execution of its own, and a mutex left locked by one call must still be locked in the next.
 func (m *Mutex) fresh(s *Sched) {
 	if m.epoch != s.epoch {
-		m.epoch, m.locked, m.user, m.shared, m.skipped = s.epoch, false, 0, false, false
+		m.epoch, m.user, m.shared, m.skipped = s.epoch, 0, false, false
 	}
 }
 
